@@ -422,10 +422,14 @@ func (fd *Client) GetItem(input *dynamodb.GetItemInput) (*dynamodb.GetItemOutput
 		return nil, awserr.New("ValidationException", err.Error(), nil)
 	}
 
-	item := copyItem(mapAttributeValueToDynamodb(table.Data[key]))
+	stored, ok := table.Data[key]
+	if !ok {
+		// no item: DynamoDB answers no Item at all, which is what `out.Item == nil` tests for
+		return &dynamodb.GetItemOutput{}, nil
+	}
 
 	output := &dynamodb.GetItemOutput{
-		Item: item,
+		Item: copyItem(mapAttributeValueToDynamodb(stored)),
 	}
 
 	return output, nil
